@@ -146,6 +146,7 @@ def canon_ff(mff):
 # ------------------------------------------------------------------------------------------------ cases
 
 def make_case(rng, findings=(), **kw):
+    findings = kw.pop("findings", findings)
     ff = gen.gen_ff(rng, findings=findings, **{k: v for k, v in kw.items() if k in ("protein", "multires", "syntax")})
     graph = gen.gen_graph(rng, ff, findings=findings,
                           **{k: v for k, v in kw.items() if k in ("nmin", "nmax", "shape", "start", "keys", "shuffle")})
@@ -205,18 +206,20 @@ def requests_of(case, out):
     applied_ops = [op for op in out.get("linkops") or [] if op["op"] != "leak"]
     run = dict(op="run", ff=mff, graph=graph, linkops=applied_ops, genexcl=genexcl, mods=mods)
     spec = dict(op="spec", ff=mff, nodes=graph["nodes"], obs=out.get("map"))
-    keys, attrs, removed, renames = [], [], [], []
+    # what every link application requires (read off the link definition) and what it wrote; whether it was
+    # applicable is judged by the Lean specification (`LinkUse.applicable`), not taken from the program
+    uses = [dict(u, inserts=[], attrs=[], removed=[]) for u in out.get("linkuses") or []]
     for op in applied_ops:
+        use = uses[op["use"]]
         if op["op"] == "insert":
-            sect, atoms, params, meta = op["ixn"]
-            keys.append([sect, atoms, dict(meta).get("version", "1")])
+            use["inserts"].append(op["ixn"])
         elif op["op"] == "replace":
-            attrs += [[op["node"], k] for k, _ in op["attrs"]]
-            renames += [[op["node"], v] for k, v in op["attrs"] if k == "atomname"]
+            use["attrs"] += [[op["node"], k, v] for k, v in op["attrs"]]
         else:
-            removed.append(op["node"])
+            use["removed"].append(op["node"])
+    facts = out.get("facts") or dict(molmeta=[], resnames=[], edges=[])
     frame = dict(op="frame", ff=mff, nodes=graph["nodes"], obs=out.get("final") or dict(atoms=[], ixns=[]),
-                 keys=keys, attrs=attrs, removed=removed, renames=renames, genexcl=genexcl, mods=mods)
+                 uses=uses, facts=facts, genexcl=genexcl, mods=mods)
     return [run, spec, frame]
 
 
